@@ -8,8 +8,12 @@ id="$1"; wt="$2"; shift 2
 export GOFLAGS=-mod=mod GOPROXY=off GOSUMDB=off GOTOOLCHAIN=local
 out=/verif/seeded/$id
 mkdir -p "$out"
-cp "$wt"/seeded_out/* "$out"/ 2>/dev/null
 patch="$out/patch.diff"
+if [ "$wt" = "-" ]; then
+  # re-run of the checks against an already confirmed seeded change (its worktree is gone)
+  [ -s "$out/confirm.log" ] && grep -q "^confirm:" "$out/confirm.log" && ! grep -q "NOT CONFIRMED" "$out/confirm.log" || { echo "no confirmed change $id"; exit 2; }
+else
+cp "$wt"/seeded_out/* "$out"/ 2>/dev/null
 democmd=$(grep -v '^\s*#' "$out/demo_cmd.txt" | grep -m1 'go ' )
 log="$out/confirm.log"; : > "$log"
 cd "$wt" || exit 2
@@ -40,12 +44,13 @@ rm -f /tmp/seed_$id.json
 git checkout -q -- .
 echo "confirm: build_rc=$rc_build demo_without_rc=$rc_without (want 0) demo_with_rc=$rc_with (want !=0) suite_rc=$rc_suite (want 0)" | tee -a "$log"
 if [ $rc_without -ne 0 ] || [ $rc_with -eq 0 ] || [ $rc_suite -ne 0 ] || [ $rc_build -ne 0 ]; then echo "NOT CONFIRMED" | tee -a "$log"; exit 3; fi
+fi
 # run our checks against /repo with the patch (other check invocations wait meanwhile)
 exec 8>/tmp/.verif-repo.lock
 flock -x 8
 export SEEDTEST=1
 cd /repo && git apply "$patch" || { echo "patch does not apply to /repo"; exit 2; }
-res="$out/checks.log"; : > "$res"
+res="$out/checks.log"; [ "$wt" = "-" ] && echo "== re-run $(date -u +%H:%M)" >> "$res" || : > "$res"
 for c in "$@"; do
   echo "== ./check $c (quick) with seeded change $id" >> "$res"
   ( cd /verif && ./check $c --tier quick ) > /tmp/seedrun.$$ 2>&1; rc=$?
